@@ -75,7 +75,12 @@ impl WorldA {
 
     fn update(&mut self, ep: usize, dt: u64, obs: &mut Obs) {
         let dur = Duration::from_millis(dt);
-        obs.sim_ms += dt;
+        if dt < 100_000_000 {
+            obs.sim_ms += dt;
+        } else {
+            // an uptime jump is not simulated time that anything happened in
+            obs.count("fault.uptime_jump");
+        }
         if ep == 0 {
             self.server.update(dur);
             for i in 0..self.conns.len() {
@@ -927,6 +932,23 @@ impl WorldA {
                     let len = 256 * 1200 + 1 + (op.d % 460_000) as usize;
                     obs.count("op.submit_huge");
                     self.submit(i, d, ch, len, None, obs);
+                    self.check_send_side(i, if d == 0 { CL } else { SV }, obs);
+                }
+            }
+            K_SUBMITSWARM => {
+                // more than 65 536 tiny messages on one channel at once (65 600 .. 70 599 messages of 0 .. 4 bytes: a counter of
+                // buffered messages that no longer fits sixteen bits); only directed corpus traces use it
+                let i = op.a as usize % ncl;
+                let d = (op.b % 2) as usize;
+                let n = self.nchan(i, d);
+                if n > 0 {
+                    let ch = op.c as usize % n;
+                    let count = 65_600 + (op.d % 5000) as usize;
+                    let len = ((op.d / 5000) % 5) as usize;
+                    obs.count("op.submit_swarm");
+                    for _ in 0..count {
+                        self.submit(i, d, ch, len, None, obs);
+                    }
                     self.check_send_side(i, if d == 0 { CL } else { SV }, obs);
                 }
             }
